@@ -28,6 +28,23 @@ theorem C39_block_keys (E : Env) (hs : Hdrs) (k : Bytes) :
     hHas (hs.foldl (stepEntry E) {}).hdrs k = hs.any fun p => decide (E.canon (E.lower (E.lower p.1)) = k) := by
   simpa [hHas] using hHas_fold E hs {} k
 
+/-- **After a per-frame header error the reader still stands at the end of the block**: upper-case or duplicate
+    names only set a flag (`UnlowercasedHeaderName`, `DuplicateHeaders`), the loop parses on — so whether and where
+    the parse of a block ends does not depend on `ToLower` / the canonical keys at all; in particular a block with an
+    offending name is consumed exactly like the same block without the offence, and the next frame of the shared
+    decompression stream starts where it should. -/
+theorem C39_block_end_independent_of_name_errors (E E' : Env) (inp : Bytes) :
+    restOf (parseBlock E inp) = restOf (parseBlock E' inp) := by
+  unfold parseBlock
+  cases h : rd32 inp with
+  | none => rfl
+  | some p =>
+    obtain ⟨n, r⟩ := p
+    simp only []
+    split
+    · rfl
+    · exact parseEntries_rest_indep E E' n r {} {}
+
 /-- the writer of the UNFIXED code (length of the name taken before `ToLower`), kept to state the old defect. -/
 def writeBlockOld (E : Env) (hs : Hdrs) : Bytes :=
   be32 hs.length ++
